@@ -206,6 +206,12 @@ LADDER_BUILDER_TOOLROUTE = {
 LADDER_CALL_GROUPS_TOOLROUTE = ["eject:octave", "eject:json", "eject:yaml", "eject:markdown", "eject:gbnf", "grammar+validate", "write"]
 
 
+# documents whose META block holds a lexer-level error (illegal character, tab, unterminated string, unbalanced bracket / brace): every
+# tool must answer with an envelope (octave_write's salvage route re-reads exactly these lines)
+META_LEXER_ERRORS_TOOLROUTE = ["===S===\nMETA:\n  TYPE::X\n  OWNER::Agent (Specialist)\n---\nA::1\n===END===\n", "===S===\nMETA:\n  TYPE::X\n\tTAB::1\nA::1\n===END===\n",
+                               "===S===\nMETA:\n  TYPE::\"unterminated\n  V::1\nA::1\n===END===\n", "META:\n  TAGS::[a,b\n  K::{x}\nB:\n  C::1\n"]
+
+
 def ladder_depths_toolroute(thorough: bool, widen: bool = False):
     """depths per family: below, around and beyond the depth at which the reader overflows the interpreter stack (about 990 block
     levels / 495 section levels); thorough: every 50 levels up to 1600 and 3000; widened quick run: every 200 levels in addition."""
@@ -488,7 +494,7 @@ def run(ctx: vlib.Ctx):
         for gi in range(ctx.budget(40, 600)):
             _d, ctext, _cr, ltext, _lr = TC.gen_case(ctx.seed, 100000 + gi)
             gen_docs += [ctext, ltext]
-        sample = rng.sample(texts, min(len(texts), ctx.budget(40, 1500))) + corpus[:4] + pool + holographic_tool_pool() + gen_docs
+        sample = rng.sample(texts, min(len(texts), ctx.budget(40, 1500))) + corpus[:4] + pool + holographic_tool_pool() + META_LEXER_ERRORS_TOOLROUTE + gen_docs
         # the tools run in worker processes under a deadline: a call that does not return is a failure of the property
         # (with the content as replay), never a stuck check
         per = 12
